@@ -9,6 +9,7 @@
   ties, negatives, extremes; the comparator only compares).
 -/
 import IocProofs.Lemmas.Order
+import IocProofs.Lemmas.OrderDecor
 import Ioc.Generated.Facts
 import IocProofs.Lemmas.SemOrder
 import IocProofs.Lemmas.SemConfigure
@@ -234,6 +235,57 @@ theorem C12_invoked_in_order (hs : SortSpec part sort)
        g.runs = sortOrdered sort part runners) :=
   start_in_order hs loadRes isInst instRes before after runFails loaders procs runners
 
+/-! ### processors that come back from the factory as another instance (decorated by an earlier processor) -/
+
+/-- The factory may answer the registered processor `x` with ANOTHER instance `r x` (delegate:52-58 `processor = icp`:
+    a decorator put around it by an earlier processor's PostProcessAfterInitialization).  Whatever that instance looks like
+    to the sorter — NOTHING is assumed about `part (r x)`; a decorator usually has neither `Order()` nor `Priority()` — the
+    chain is the sorted REGISTERED sequence with every processor replaced in place, every log is a prefix of it, and when
+    nothing stops every log is all of it. -/
+theorem C12_resolved_processors_invoked_in_order (hs : SortSpec part sort)
+    (loadRes : α → Step) (r : α → α) (isInst : α → Bool) (instRes : α → Step)
+    (before after : α → Unit → Res Unit) (runFails : α → Bool) (loaders procs runners : List α) :
+    let g := start sort part loadRes (fun x => some (r x)) isInst instRes before after runFails loaders procs runners
+    let chain := (sortOrdered sort part procs).map r
+    firsts g.loads <+: sortOrdered sort part loaders ∧
+    firsts g.inst <+: chain.filter isInst ∧
+    g.before <+: chain ∧
+    g.after <+: chain ∧
+    g.runs <+: sortOrdered sort part runners ∧
+    ((∀ x, (loadRes x).stops = false) → (∀ x, (instRes x).stops = false) →
+     (∀ p b, ∃ c, before p b = .val c) → (∀ p b, ∃ c, after p b = .val c) → (∀ x, runFails x = false) →
+       g.err = false ∧
+       firsts g.loads = sortOrdered sort part loaders ∧
+       firsts g.inst = chain.filter isInst ∧
+       g.before = chain ∧
+       g.after = chain ∧
+       g.runs = sortOrdered sort part runners) :=
+  start_resolved_in_order hs loadRes r isInst instRes before after runFails loaders procs runners
+
+/-- …read back to the registered processors (`orig` = the processor a chain instance stands for; a decorator forwards its
+    callbacks to it): the processors whose callbacks run are a prefix of the contract-ordered REGISTERED sequence — judged by
+    the registered processor's declared class and Order (`C12_contract`) — and all of it when nothing stops. -/
+theorem C12_decorated_processors_keep_position (hs : SortSpec part sort)
+    (loadRes : α → Step) (r orig : α → α) (horig : ∀ x, orig (r x) = x) (isInst : α → Bool) (instRes : α → Step)
+    (before after : α → Unit → Res Unit) (runFails : α → Bool) (loaders procs runners : List α) :
+    let g := start sort part loadRes (fun x => some (r x)) isInst instRes before after runFails loaders procs runners
+    g.before.map orig <+: sortOrdered sort part procs ∧
+    g.after.map orig <+: sortOrdered sort part procs ∧
+    (sortOrdered sort part procs).Pairwise (Precedes part) ∧
+    ((∀ x, (loadRes x).stops = false) → (∀ x, (instRes x).stops = false) →
+     (∀ p b, ∃ c, before p b = .val c) → (∀ p b, ∃ c, after p b = .val c) → (∀ x, runFails x = false) →
+       g.before.map orig = sortOrdered sort part procs ∧ g.after.map orig = sortOrdered sort part procs) := by
+  intro g
+  obtain ⟨_, _, hB, hA, _, hAll⟩ :=
+    start_resolved_in_order hs loadRes r isInst instRes before after runFails loaders procs runners
+  have hm := map_resolved_orig r orig horig (sortOrdered sort part procs)
+  refine ⟨?_, ?_, sortOrdered_pairwise hs procs, ?_⟩
+  · have := prefix_map orig hB; rwa [hm] at this
+  · have := prefix_map orig hA; rwa [hm] at this
+  · intro n1 n2 n3 n4 n5
+    obtain ⟨_, _, _, e1, e2, _⟩ := hAll n1 n2 n3 n4 n5
+    exact ⟨by show (g.before).map orig = _; rw [e1, hm], by show (g.after).map orig = _; rw [e2, hm]⟩
+
 /-! ### early references: GetEarlyBeanReference walks the same sorted sequence -/
 
 /-- The loop of GetEarlyBeanReference still ranges over the sorted `componentPostProcessors` (the slice the
@@ -311,6 +363,19 @@ example :
       true (fun p => p.id < 3) (fun _ _ => some ())
       [] [⟨.plain, 0⟩, ⟨.ord 5, 1⟩, ⟨.prio 70, 2⟩, ⟨.ord (-1), 3⟩] []
     g.err = false ∧ g.early.map (·.id) = [2, 1, 0] ∧ g.before.map (·.id) = [2, 3, 1, 0] := by decide
+
+/-- a decorating processor (id 0, priority-ordered, Order -100) ahead of two eager processors (ids 1, 2) and a LazyInit one
+    (id 3, ordered 50): the factory answers 1 and 2 with decorators (ids 11, 12) that are UNORDERED to the sorter; the chain
+    keeps them where their registration put them (0, 11, 12, 3, 4) — while sorting the resolved chain once more (what a
+    "keep the whole chain ordered" rewrite does) would move the priority-ordered processor 1 behind the merely ordered 3 -/
+example :
+    let part : Participant → Part := fun p => if p.id ≥ 10 then .plain else p.part
+    let r : Participant → Participant := fun p => if p.id == 1 || p.id == 2 then ⟨p.part, p.id + 10⟩ else p
+    let procs : List Participant := [⟨.plain, 4⟩, ⟨.ord 50, 3⟩, ⟨.ord 1, 2⟩, ⟨.prio 5, 1⟩, ⟨.prio (-100), 0⟩]
+    let g := start (fun lt l => isort lt l) part (fun _ => .skip) (fun x => some (r x))
+      (fun _ => false) (fun _ => .skip) (fun _ _ => .val ()) (fun _ _ => .val ()) (fun _ => false) [] procs []
+    g.err = false ∧ g.before.map (·.id) = [0, 11, 12, 3, 4] ∧
+      (sortOrdered (fun lt l => isort lt l) part g.before).map (·.id) = [0, 3, 11, 12, 4] := by decide
 
 /-- Initialize / SetLoaders with as many loaders, registered out of order / Initialize / AddLoaders / Initialize -/
 example :
